@@ -4,13 +4,17 @@ import (
 	"context"
 	"errors"
 	"fmt"
+	"os"
+	"strconv"
 	"strings"
 	"sync"
 	"sync/atomic"
 	"testing"
 	"time"
 
+	"github.com/twmb/franz-go/pkg/kerr"
 	"github.com/twmb/franz-go/pkg/kgo"
+	"github.com/twmb/franz-go/pkg/kmsg"
 	"pgregory.net/rapid"
 
 	"verif/h/bubble"
@@ -20,17 +24,17 @@ import (
 func TestMain(m *testing.M) { ev.Main(m, "C13") }
 
 type plan struct {
-	Brokers   int
-	Kind      string // producer | txn | consumer | group | group-block | share
-	Balancer  string
-	NetMode   string // ok | slow | blackhole | unreachable
-	NetAt     time.Duration // when the network condition starts (before Close)
-	CloseAt   time.Duration // when Close is called
-	NProduce  int
-	MaxBuf    int
-	Linger    time.Duration
-	EndTxn    bool // txn: an EndTransaction is in flight at Close
-	Pollers   int
+	Brokers        int
+	Kind           string // producer | txn | consumer | group | group-block | share
+	Balancer       string
+	NetMode        string        // ok | slow | blackhole | unreachable
+	NetAt          time.Duration // when the network condition starts (before Close)
+	CloseAt        time.Duration // when Close is called
+	NProduce       int
+	MaxBuf         int
+	Linger         time.Duration
+	EndTxn         bool // txn: an EndTransaction is in flight at Close
+	Pollers        int
 	CommitInFlight bool
 }
 
@@ -39,7 +43,7 @@ func genPlan(t *rapid.T) plan {
 	p.Brokers = rapid.IntRange(1, 3).Draw(t, "brokers")
 	p.Kind = rapid.SampledFrom([]string{"producer", "producer", "txn", "consumer", "group", "group", "group-block", "share"}).Draw(t, "kind")
 	p.Balancer = rapid.SampledFrom([]string{"range", "sticky", "coop", "848"}).Draw(t, "balancer")
-	p.NetMode = rapid.SampledFrom([]string{"ok", "ok", "slow", "blackhole", "unreachable"}).Draw(t, "netmode")
+	p.NetMode = rapid.SampledFrom([]string{"ok", "ok", "slow", "blackhole", "unreachable", "leaderless"}).Draw(t, "netmode")
 	times := []time.Duration{0, time.Millisecond, 20 * time.Millisecond, 300 * time.Millisecond, 2 * time.Second, 11 * time.Second}
 	p.NetAt = rapid.SampledFrom(times).Draw(t, "netat")
 	p.CloseAt = rapid.SampledFrom(times).Draw(t, "closeat")
@@ -54,10 +58,54 @@ func genPlan(t *rapid.T) plan {
 
 const bound = 15 * time.Minute
 
+// stallLimit is how much REAL time a case may keep running after Close has returned. Every
+// wait of the harness after that point is bounded in virtual time and costs milliseconds of
+// real time; the only thing that can hold a bubble for minutes is a client goroutine that
+// busy-loops without ever blocking (virtual time cannot advance then). After Close has
+// returned that is exactly what the property forbids ("none of the client's goroutines
+// remain running"), so it is reported as a violation instead of ending in the test
+// binary's timeout, which the driver could only call inconclusive.
+var stallLimit = func() time.Duration {
+	if s, err := strconv.Atoi(os.Getenv("VERIF_STALL_SECS")); err == nil && s > 0 {
+		return time.Duration(s) * time.Second // testing aid
+	}
+	return 4 * time.Minute
+}()
+
 func TestCloseAlwaysFinishes(t *testing.T) {
 	rapid.Check(t, func(rt *rapid.T) {
 		p := genPlan(rt)
 		var inflight bool
+		var closeReturned atomic.Bool
+		caseDone := make(chan struct{})
+		defer close(caseDone)
+		go func() { // outside the bubble: real clock
+			tick := time.NewTicker(time.Second)
+			defer tick.Stop()
+			var since time.Time
+			for {
+				select {
+				case <-caseDone:
+					return
+				case now := <-tick.C:
+					if !closeReturned.Load() {
+						continue
+					}
+					if since.IsZero() {
+						since = now
+					}
+					if now.Sub(since) > stallLimit {
+						gs := firstN(bubble.KgoGoroutines(), 8)
+						msg := fmt.Sprintf("VERIF-VIOLATION C13: Close returned more than %v of real time ago and the case is still running: a client goroutine keeps spinning without blocking (virtual time cannot advance)\nplan: %+v\nclient goroutines:\n%s\n", stallLimit, p, strings.Join(gs, "\n\n"))
+						ev.Replay("c13-stall-after-close.txt", msg)
+						fmt.Fprint(os.Stderr, msg)
+						fmt.Println("--- FAIL: TestCloseAlwaysFinishes (busy client goroutine after Close)")
+						ev.Flush()
+						os.Exit(1)
+					}
+				}
+			}
+		}()
 		bubble.Run(t, rt, func(e *bubble.Env) {
 			e.StartCluster(bubble.ClusterOpts{Brokers: p.Brokers, Topics: map[string]int32{"in": 3, "out": 2}})
 			// prefill with a helper client that is closed before the client under test exists
@@ -185,6 +233,57 @@ func TestCloseAlwaysFinishes(t *testing.T) {
 					e.Net.SetMode(0, true)
 				case "unreachable":
 					e.Net.Block(true)
+				case "leaderless":
+					// partition 1 of both topics loses its leader: metadata reports LEADER_NOT_AVAILABLE for
+					// it and produce requests to it are answered NOT_LEADER_FOR_PARTITION, so records for it
+					// stay buffered on a partition the client cannot write to
+					e.Net.AddRule(bubble.Rule{Key: 3, Always: true, Act: bubble.RewriteResponse, Rewrite: func(ri *bubble.ReqInfo, body []byte) []byte {
+						resp := kmsg.NewPtrMetadataResponse()
+						resp.Version = ri.Version
+						hdr := 4
+						if resp.IsFlexible() {
+							hdr = 5
+						}
+						if len(body) < hdr || resp.ReadFrom(body[hdr:]) != nil {
+							return nil
+						}
+						for i := range resp.Topics {
+							for j := range resp.Topics[i].Partitions {
+								if pp := &resp.Topics[i].Partitions[j]; pp.Partition == 1 {
+									pp.ErrorCode, pp.Leader = kerr.LeaderNotAvailable.Code, -1
+								}
+							}
+						}
+						return resp.AppendTo(append([]byte(nil), body[:hdr]...))
+					}})
+					e.Cluster.ControlKey(0, func(kreq kmsg.Request) (kmsg.Response, error, bool) {
+						e.Cluster.KeepControl()
+						req := kreq.(*kmsg.ProduceRequest)
+						hit := false
+						for _, t := range req.Topics {
+							for _, pp := range t.Partitions {
+								if pp.Partition == 1 {
+									hit = true
+								}
+							}
+						}
+						if !hit || req.Acks == 0 {
+							return nil, nil, false
+						}
+						// answer the whole request NOT_LEADER (nothing is appended)
+						resp := req.ResponseKind().(*kmsg.ProduceResponse)
+						for _, t := range req.Topics {
+							rt := kmsg.NewProduceResponseTopic()
+							rt.Topic, rt.TopicID = t.Topic, t.TopicID
+							for _, pp := range t.Partitions {
+								rp := kmsg.NewProduceResponseTopicPartition()
+								rp.Partition, rp.ErrorCode, rp.BaseOffset = pp.Partition, kerr.NotLeaderForPartition.Code, -1
+								rt.Partitions = append(rt.Partitions, rp)
+							}
+							resp.Topics = append(resp.Topics, rt)
+						}
+						return resp, nil, true
+					})
 				}
 			}
 			if p.NetAt <= p.CloseAt {
@@ -212,6 +311,7 @@ func TestCloseAlwaysFinishes(t *testing.T) {
 			if !bubble.WaitTimeout(cdone, bound) {
 				fail("Close did not return within %v of virtual time; goroutines:\n%s", bound, strings.Join(firstN(bubble.KgoGoroutines(), 6), "\n\n"))
 			}
+			closeReturned.Store(true)
 			took := time.Since(t0)
 			e.Log.Add("close-done", 0, "", nil, int64(took), 0)
 			// polls return ErrClientClosed
